@@ -1,6 +1,7 @@
 package main
 
 import (
+	"fmt"
 	"go/token"
 	"go/types"
 	"strings"
@@ -167,7 +168,7 @@ func ruleC05(c *Ctx, r *Result) {
 				}
 				return false
 			})
-			r.Check(ok, "C05.2", c.Name(cl)+"#eof-updated-before-success", c.InstrPos(ret), "Close rewrites the end-of-file address (when the allocator moved) before it reports success")
+			r.CheckMissing(c, cl, ok, "C05.2", c.Name(cl)+"#eof-updated-before-success", c.InstrPos(ret), "Close rewrites the end-of-file address (when the allocator moved) before it reports success")
 		}
 		// the value written is the allocator's end of file
 		for _, site := range callsIn(cl) {
@@ -222,7 +223,7 @@ func ruleC05(c *Ctx, r *Result) {
 			if compared {
 				r.Hold("C05.3", c.Name(fn)+"#header-size-checked", c.InstrPos(site), "bytes written are compared with the bytes allocated")
 			} else {
-				r.Viol("C05.3", c.Name(fn)+"#header-size-unchecked", c.InstrPos(site), "the object header is written into space from Allocate(n) but the written size is never compared with n")
+				r.ViolMissing(c, fn, "C05.3", c.Name(fn)+"#header-size-unchecked", c.InstrPos(site), "the object header is written into space from Allocate(n) but the written size is never compared with n")
 			}
 		}
 	}
@@ -459,7 +460,7 @@ func c05allocFits(c *Ctx, r *Result) {
 		}
 	}
 	if n < 2 {
-		r.Errorf("C05.6: only %d allocate-then-write pairs resolved", n)
+		r.Shortfall(c, "C05.6", fmt.Sprintf("C05.6: only %d allocate-then-write pairs resolved", n))
 	}
 	r.Floor("C05.6", 2)
 }
